@@ -189,6 +189,14 @@ def gen_cases(tier, rng):
     add(group='warning', host='-', wrap='-', fault='mc_trajectory_without_database', entry='audit', db='none', expect='one_error_one_warning')
     for entry in ('expr', 'biogeme'):
         add(group='warning', host='-', wrap='-', fault='chosen_alternative_unavailable', entry=entry, db='plain', expect='no_foreign_exception')
+    # (m5, round 3) create_function: second derivatives without first ones are refused when the callable is BUILT; every consistent
+    # request gives a callable whose value at a point other than the initial one is exact; a point of the wrong length is refused
+    for g_, h_, b_ in [(True, True, False), (True, False, True), (True, True, True), (True, False, False), (False, False, False)]:
+        add(group='function', host='-', wrap='-', fault='consistent_%d%d%d' % (g_, h_, b_), entry='create_function', db='plain', expect='value')
+    for g_, h_, b_ in [(False, True, False), (False, False, True), (False, True, True)]:
+        add(group='function', host='-', wrap='-', fault='second_without_first_%d%d%d' % (g_, h_, b_), entry='create_function', db='plain',
+            expect='BiogemeError')
+    add(group='function', host='-', wrap='-', fault='point_of_wrong_length', entry='create_function', db='plain', expect='BiogemeError')
     # operators evaluated without any database
     for name in ['extra_plt_without_database', 'extra_variable_without_database']:
         add(group='plant', host='-', wrap='none', fault=name, entry='expr', db='none', expect='BiogemeError')
@@ -480,6 +488,24 @@ def execute(case):
             return bg.calculate_likelihood(bg.id_manager.free_betas_values, scaled=False)
         return outcome(run)
 
+    if g == 'function':
+        f = case['fault']
+        df = base_frame()
+
+        def run():
+            d = db.Database('c12', df)
+            e = Beta('b', 0.5, None, None, 0) * Variable('x') + Beta('c', 0.25, None, None, 0) * Variable('y')
+            if f == 'point_of_wrong_length':
+                fn = e.create_function(database=d, number_of_draws=4, gradient=True, hessian=False, bhhh=False)
+                return fn([2.0, -1.0, 3.0]).function
+            bits = f.rsplit('_', 1)[1]
+            fn = e.create_function(database=d, number_of_draws=4, gradient=bits[0] == '1', hessian=bits[1] == '1', bhhh=bits[2] == '1')
+            return fn([2.0, -1.0]).function
+        out = outcome(run)
+        if case['expect'] == 'value':
+            out['want'] = float((2.0 * df['x'] - 1.0 * df['y']).sum())
+        return out
+
     if g == 'plant' and case['db'] == 'none':
         def run():
             if case['fault'] == 'extra_plt_without_database':
@@ -670,6 +696,8 @@ def judge(case, out):
             return None         # under a wrapper only "evaluates to a finite number" is asserted
         if o == 'number' and out.get('want') is not None and abs(out['value'] - out['want']) <= 1e-9 * max(1.0, abs(out['want'])):
             return None
+        if case['group'] == 'function':
+            return ('a consistent request to create_function gives a callable with the exact value', out.get('want'), got)
         return ('missing-data code that is not read (or not the declared one) is harmless', out.get('want'), got)
     return ('harness', exp_, got)
 
@@ -812,7 +840,7 @@ def main():
              'variable outside the trajectory on panel data, availability keys != utility keys (3 shapes), choice not an alternative, second '
              'derivatives without first} + 4 extra operator rules x 2 entry points; fault-free hosts; missing-data code read / in '
              'unselected Elem and ConditionalSum branch / unread column / non-default declared code (9 cases); 15 data faults; '
-             '10 model functions x overlapping / leaving nests; 3 warning-only specifications (audit: no error, one warning; no foreign exception) + 1 error-and-warning audit' % (len(cases), len(HOSTS), 'sampled' if tier == 'quick' else 'all 8'))
+             '10 model functions x overlapping / leaving nests; 3 warning-only specifications (audit: no error, one warning; no foreign exception) + 1 error-and-warning audit; create_function x 8 derivative requests + a point of the wrong length' % (len(cases), len(HOSTS), 'sampled' if tier == 'quick' else 'all 8'))
     print(json.dumps({'cases': len(cases), 'bound': bound, 'failures': (diverse + rest)[:10],
                       'n_failures': len(failures), 'n_failure_classes': len(diverse),
                       'n_cases_retried_after_crash': sum(1 for o in results.values() if o.get('died_retries'))}))
